@@ -241,7 +241,7 @@ def run(ctx):
 
     # D3 uuid arguments
     nsites = check_uuid_sites(ctx, prog)
-    ctx.floor("c05.idprov", "uuid_from_obj/uuid_from_str call sites", nsites, 14)
+    ctx.floor("c05.idprov", "id-function call sites", nsites, 14)
 
     # D4 statics
     statics = [f for f in prog.fns.values() if f.kind == "static"]
@@ -271,14 +271,23 @@ def run(ctx):
         ctx.violation("c05.unsafe", "c05.unsafe|impl|%s" % i["self"], "unsafe impl %s for %s" % (i["trait"], i["self"]), "%s:%s" % (i["span"][0], i["span"][1]))
 
 
+def id_functions(prog):
+    """ids of the workspace functions that compute an id from their arguments: plain functions returning uuid::Uuid
+    (uuid_from_obj, uuid_from_str and whatever joins or replaces them)"""
+    return {f.id for f in prog.fns.values() if f.kind in ("fn", "assocfn") and re.search(r"(^|::)Uuid$", f.raw.get("ret") or "") and not f.raw.get("impl_derived")
+            and f.raw.get("inputs")}
+
+
 def check_uuid_sites(ctx, prog, only_prefix=None, rule="c05.idprov"):
     n = 0
+    idf = id_functions(prog)
+    from ..mir import callee_id
     for fn in sorted(prog.fns.values(), key=lambda f: f.id):
         if fn.root != fn.id:
             continue
         if only_prefix and not fn.path.startswith(only_prefix):
             continue
-        has = any((callee_name(t) or "").split("::")[-1] in ("uuid_from_obj", "uuid_from_str") for sc in [fn] + prog.closures_of(fn) for _, t in sc.body.calls())
+        has = any(callee_id(t) in idf for sc in [fn] + prog.closures_of(fn) for _, t in sc.body.calls())
         if not has:
             continue
         root = Scope(prog, fn)
@@ -287,10 +296,10 @@ def check_uuid_sites(ctx, prog, only_prefix=None, rule="c05.idprov"):
             for b, t in sc.body.calls():
                 nm = callee_name(t) or ""
                 last = nm.split("::")[-1]
-                if last not in ("uuid_from_obj", "uuid_from_str"):
+                if callee_id(t) not in idf or sc.fn.id in idf or prog.root_of(sc.fn).id in idf:
                     continue
                 n += 1
-                arg = sc.operand(t["args"][0])
+                arg = sc.operand(t["args"][0]) if len(t["args"]) == 1 else ("agg", "tuple", tuple(str(i) for i in range(len(t["args"]))), tuple(sc.operand(a) for a in t["args"]))
                 disp = prog.display(sc.fn)
                 k = cnt.get(last, 0)
                 cnt[last] = k + 1
